@@ -35,6 +35,12 @@ out.append('| seed | property | needs to manifest | reported by |\n|---|---|---|
 for p in sorted(glob.glob(V + '/seeded/*/meta.json')):
     m = json.load(open(p))
     out.append('| `%s` | %s | %s | %s |' % (m['seed'], m['property'], m['needs'].replace('|', '\\|'), m['detected_by'].replace('|', '\\|')))
+hm = V + '/seeded/hand_mutants.json'
+if os.path.exists(hm):
+    out.append('\n### 10.6 Hand mutants (`tools/hand_mutants.py`: one-line edits of /repo, quick tier of the named check)\n')
+    out.append('| edit | property | what | result | rule(s) |\n|---|---|---|---|---|')
+    for r in json.load(open(hm)):
+        out.append('| `%s` | %s | %s | %s | %s |' % (r['id'], r['property'], r.get('what', '').replace('|', '\\|'), r['status'], ', '.join(r.get('rules') or [])))
 txt = '\n'.join(out) + '\n'
 d = open(V + '/DESIGN.md').read()
 b, e = '<!-- BEGIN GENERATED -->', '<!-- END GENERATED -->'
